@@ -319,7 +319,9 @@ def setDefaultDoc (name : Str) (p : Param) (emitDefaultDoc : Bool) : Res Param :
           | some v =>
             if q then
               match v with
-              | .str s => .ok { p with doc := some (doc' ++ " Defaults to ".toList ++ quote s) }
+              | .str s =>
+                -- an empty string is written as `""` (`quote` leaves it empty)
+                .ok { p with doc := some (doc' ++ " Defaults to ".toList ++ (if s.isEmpty then ['"', '"'] else quote s)) }
               | .none => .ok { p with doc := some (doc' ++ " Defaults to None".toList) }
               | _ => .raises "AttributeError"
             else (fmtVal v).bind fun sv => .ok { p with doc := some (doc' ++ " Defaults to ".toList ++ sv) }
